@@ -1,4 +1,8 @@
+mod c47;
+mod types;
+
 fn main() {
-    eprintln!("no sub-commands yet");
-    std::process::exit(2);
+    vf_kit::dispatch! {
+        "c47" => c47::C47,
+    }
 }
